@@ -14,7 +14,7 @@ import (
 //   feat.repair F…      -> (F…) | PANIC | NILLOC      gts.Repair on the table
 //   feat.repair.rev F…  -> the same; the model iterates the class map in the opposite order
 //                          (Go iterates it in a random order on every call)
-//   feat.classkey F     -> the grouping text fmt.Sprintf("%s:%v", Key, Props)
+//   feat.classkey F     -> the grouping text fmt.Sprintf("%q:%q", Key, Props)
 //   c12.shape F…        -> the decidable guards of Gts/Spec/RepairGuard.lean (Go re-statement
 //                          below), one bit each
 //
@@ -84,7 +84,7 @@ func c12Run(ff []gts.Feature) (out []gts.Feature, panicked bool) {
 // keys and shapes
 
 // the text the code groups by
-func c12TextKey(f gts.Feature) string { return fmt.Sprintf("%s:%v", f.Key, f.Props) }
+func c12TextKey(f gts.Feature) string { return fmt.Sprintf("%q:%q", f.Key, f.Props) }
 
 // key + qualifiers, injective
 func c12TrueKey(f gts.Feature) string { return encStr(f.Key) + encProps(f.Props) }
@@ -101,34 +101,32 @@ func c12Classes(ff []gts.Feature, key func(gts.Feature) string) (order []string,
 	return
 }
 
-// flatParts: the number of locations Push is handed after flattening Joined arguments.
-func c12FlatParts(l gts.Location) int {
-	if j, ok := l.(gts.Joined); ok {
-		n := 0
-		for _, u := range j {
-			n += c12FlatParts(u)
-		}
-		return n
+// c12Void: a Joined that flattens to nothing (empty Joined{} literals; outside the domain).
+func c12Void(l gts.Location) bool {
+	j, ok := l.(gts.Joined)
+	if !ok {
+		return false
 	}
-	return 1
+	for _, u := range j {
+		if !c12Void(u) {
+			return false
+		}
+	}
+	return true
 }
 
 type c12Shape struct {
-	join     bool // K12A: a member is a Joined location
-	overflow bool // K12A: ... and the flattened parts outnumber the members
-	compl    bool // K12B: two or more Complemented members
-	collide  bool // K12C: members with different key/qualifiers share the text key
-	site     bool // K12D: >= 2 members, one of them a Between or Point
-	other    bool // K12E: a member that is neither Ranged, Joined nor Complemented (never merged)
+	join  bool // K12G: a member is a Joined location (flattened by Push)
+	compl bool // K12B: two or more Complemented members
+	site  bool // K12D: >= 2 members, one of them a Between or Point
+	other bool // K12E: a member that is neither Ranged, Joined nor Complemented (never merged)
 }
 
 func c12ClassShape(ff []gts.Feature, idx []int) c12Shape {
 	var s c12Shape
-	parts, ncompl := 0, 0
+	ncompl := 0
 	for _, i := range idx {
-		l := ff[i].Loc
-		parts += c12FlatParts(l)
-		switch l.(type) {
+		switch ff[i].Loc.(type) {
 		case gts.Joined:
 			s.join = true
 		case gts.Complemented:
@@ -141,24 +139,22 @@ func c12ClassShape(ff []gts.Feature, idx []int) c12Shape {
 		default:
 			s.other = true
 		}
-		if c12TrueKey(ff[i]) != c12TrueKey(ff[idx[0]]) {
-			s.collide = true
-		}
 	}
-	s.overflow = s.join && parts > len(idx)
 	s.compl = ncompl >= 2
 	return s
 }
 
-// c12Attribute names the known finding that explains a failure located in the text class of
-// feature index at (at < 0: a failure of the whole table), or "".
+// c12Attribute names the known finding that explains a failure located in the class of
+// feature index at (at < 0: a failure of the whole table), or "".  A panic, a duplicated
+// feature or a fusion across different qualifiers has no explanation any more (F18-F20).
 func c12Attribute(ff []gts.Feature, at int, cover bool) string {
-	_, classes := c12Classes(ff, c12TextKey)
-	for _, idx := range classes {
-		if c12ClassShape(ff, idx).overflow {
-			return "K12A" // panic / duplicated indices: the whole table is affected
-		}
+	if cover {
+		// fusing complemented members or flattening a join never changes the covered
+		// residues; the only reduction rule that does is K2 (a Point dropped after a Ranged
+		// ending there), decided exactly by the model guard `c12.k2` (Failure.Guard)
+		return ""
 	}
+	_, classes := c12Classes(ff, c12TextKey)
 	var shapes []c12Shape
 	if at >= 0 {
 		shapes = append(shapes, c12ClassShape(ff, classes[c12TextKey(ff[at])]))
@@ -169,19 +165,8 @@ func c12Attribute(ff []gts.Feature, at int, cover bool) string {
 	}
 	for _, s := range shapes {
 		if s.join {
-			return "K12A"
+			return "K12G"
 		}
-	}
-	for _, s := range shapes {
-		if s.collide {
-			return "K12C"
-		}
-	}
-	if cover {
-		// fusing complemented members never changes the covered residues; the only
-		// reduction rule that does is K2 (a Point dropped after a Ranged ending there),
-		// decided exactly by the model guard `c12.k2` (Failure.Guard)
-		return ""
 	}
 	for _, s := range shapes {
 		if s.compl {
@@ -197,27 +182,34 @@ func c12Attribute(ff []gts.Feature, at int, cover bool) string {
 }
 
 // c12ShapeBits: the Go re-statement of the Lean guards (Gts/Spec/RepairGuard.lean), in the
-// order noTopJoin keysInj plain: one bit each.
+// order plain noNil: one bit each.
 func c12ShapeBits(ff []gts.Feature) string {
 	_, classes := c12Classes(ff, c12TextKey)
-	noTopJoin, keysInj, plain := true, true, true
+	plain, noNil := true, true
 	for _, idx := range classes {
-		s := c12ClassShape(ff, idx)
-		if s.join {
-			noTopJoin = false
-		}
-		if s.collide {
-			keysInj = false
-		}
+		allVoid := true
 		for _, i := range idx {
-			if _, ok := ff[i].Loc.(gts.Ranged); !ok {
-				if _, isJ := ff[i].Loc.(gts.Joined); isJ || len(idx) != 1 {
-					plain = false
-				}
+			if _, ok := ff[i].Loc.(gts.Ranged); !ok && len(idx) != 1 {
+				plain = false
+			}
+			if !c12Void(ff[i].Loc) {
+				allVoid = false
 			}
 		}
+		if allVoid && len(idx) >= 2 {
+			noNil = false
+		}
 	}
-	return b01(noTopJoin) + b01(keysInj) + b01(plain)
+	return b01(plain) + b01(noNil)
+}
+
+func c12HasJoin(ff []gts.Feature) bool {
+	for _, f := range ff {
+		if _, ok := f.Loc.(gts.Joined); ok {
+			return true
+		}
+	}
+	return false
 }
 
 // ---------------------------------------------------------------------------
@@ -385,12 +377,16 @@ func c12Table(r *Run, ff []gts.Feature, tag string) {
 	r.count(fmt.Sprintf("%s/maxclass%d", tag, minInt(maxc, 6)))
 	r.eval(line, maxc >= 2)
 
-	// under the guards of the _partial theorems (plain table, injective grouping text) clauses
-	// (a)–(f) are proved: no known finding can explain a failure there
+	// under the guard of the _partial theorems (plain table) clauses (a)–(f) are proved: no
+	// known finding can explain a failure there
 	bits := c12ShapeBits(ff)
-	proved := bits[1] == '1' && bits[2] == '1'
+	proved := bits[0] == '1'
 	if proved {
-		r.count("guard/plain+keysInj")
+		r.count("guard/plain")
+	}
+	hasJoin := c12HasJoin(ff)
+	if len(ff) > 0 {
+		r.op(c12Line("feat.classkey", ff[len(ff)-1:]))
 	}
 	fail := func(oracle, g, want string, at int, cover bool) {
 		f := Failure{Oracle: oracle, Op: line, Got: g, Want: want, Finding: c12Attribute(ff, at, cover)}
@@ -403,17 +399,20 @@ func c12Table(r *Run, ff []gts.Feature, tag string) {
 		r.fail(f)
 	}
 
-	// (a) never panics
+	// (a) never panics (F18: at full strength; no finding explains a panic)
 	out, panicked := c12Run(ff)
 	if panicked {
 		r.count("result/panic")
-		fail("(a) Repair never panics", got, "a feature table", -1, false)
+		r.fail(Failure{Oracle: "(a) Repair never panics", Op: line, Got: got, Want: "a feature table"})
 		return
 	}
 	for _, f := range out {
 		if f.Loc == nil {
 			r.count("result/nil")
-			fail("(a) Repair never produces a nil Location", got, "a feature table", -1, false)
+			if bits[1] == '1' {
+				r.fail(Failure{Oracle: "(a) Repair never produces a nil Location", Op: line, Got: got, Want: "a feature table"})
+			}
+			// else: a class of empty Joined{} literals, outside the domain
 			return
 		}
 	}
@@ -428,16 +427,12 @@ func c12Table(r *Run, ff []gts.Feature, tag string) {
 	out2, p2 := c12Run(out)
 	r.op(c12Line("feat.repair", out))
 	if p2 {
-		f := Failure{Oracle: "(b) Repair is idempotent (second Repair panics)", Op: line, Got: "PANIC", Want: got}
-		if bits[0] == '0' {
-			f.Finding = "K12A"
-		}
-		r.fail(f)
+		r.fail(Failure{Oracle: "(b) Repair is idempotent (second Repair panics)", Op: line, Got: "PANIC", Want: got})
 	} else if !c12TableEq(out2, out) {
 		// only a flattened join (written back unsorted) is known to break idempotence
 		f := Failure{Oracle: "(b) Repair is idempotent", Op: line, Got: c12EncTable(out2), Want: got}
-		if bits[0] == '0' {
-			f.Finding = "K12A"
+		if hasJoin && !proved {
+			f.Finding = "K12G"
 		}
 		r.fail(f)
 	}
@@ -527,7 +522,9 @@ type c12Class struct {
 var c12ClassPool = []c12Class{
 	{"gene", gts.Props{}},
 	{"gene", gts.Props{{"note", "a b"}}},
-	{"gene", gts.Props{{"note", "a", "b"}}}, // same %v text as the previous one
+	{"gene", gts.Props{{"note", "a", "b"}}}, // same %v text as the previous one (F20)
+	{"gene", gts.Props{{"note", "a\" \"b"}, {"x\\", "]", "["}}},
+	{"ge\"ne", gts.Props{{"note", "a"}, {}}},
 	{"CDS", gts.Props{{"gene", "x"}, {"note", "a"}}},
 	{"CDS", gts.Props{{"gene", "x"}}},
 	{"source", gts.Props{}},
@@ -693,7 +690,7 @@ func c12RestoreFinding(f gts.Feature, npieces int) string {
 	case gts.Ranged:
 		return ""
 	case gts.Joined:
-		return "K12A"
+		return "K12G"
 	case gts.Complemented:
 		return "K12B"
 	default:
@@ -751,7 +748,7 @@ func c12Restore(r *Run, s gts.Sequence, cuts []int) {
 
 	out, panicked := c12Run(table)
 	if panicked {
-		r.fail(Failure{Oracle: "(g)(a) slice;concat;repair never panics", Op: line, Got: got, Finding: c12Attribute(table, -1, false)})
+		r.fail(Failure{Oracle: "(g)(a) slice;concat;repair never panics", Op: line, Got: got})
 		return
 	}
 	out = c12StripSource(out)
@@ -785,15 +782,6 @@ func c12Restore(r *Run, s gts.Sequence, cuts []int) {
 	}
 	if !allExplained {
 		finding = ""
-		// duplicated indices (a Joined member overflowing its class) overwrite unrelated features
-		if c12Attribute(table, -1, false) == "K12A" {
-			_, tc := c12Classes(table, c12TextKey)
-			for _, idx := range tc {
-				if c12ClassShape(table, idx).overflow {
-					finding = "K12A"
-				}
-			}
-		}
 	}
 	r.fail(Failure{Oracle: "(g) slice;concat;repair restores every cut feature with a table-unique class", Op: line,
 		Got: got, Want: encList(c12EncFeats(orig)) + " first missing " + bad, Finding: finding})
